@@ -478,6 +478,9 @@ func (fv *FuncVC) binop(op token.Token, a, b *Val, rt types.Type, pos token.Pos)
 	}
 	switch op {
 	case token.EQL, token.NEQ:
+		if ot != nil && isString(ot) {
+			fv.strEqSym(a.T, b.T)
+		}
 		e := fv.equal(a, b)
 		if op == token.NEQ {
 			e = not(e)
@@ -614,6 +617,30 @@ func (fv *FuncVC) equal(a, b *Val) string {
 		}
 	}
 	return eq(a.T, b.T)
+}
+
+// strEqSym emits the extensionality instance for a code-level comparison of two non-constant strings:
+// (a = b) <=> same length and same bytes.
+func (fv *FuncVC) strEqSym(a, b string) {
+	if a == b || strings.Contains(a, "q!") || strings.Contains(b, "q!") {
+		return
+	}
+	if _, ok := fv.g.strConstValue(a); ok {
+		return
+	}
+	if _, ok := fv.g.strConstValue(b); ok {
+		return
+	}
+	key := a + "==" + b
+	if fv.strEqDone == nil {
+		fv.strEqDone = map[string]bool{}
+	}
+	if fv.strEqDone[key] {
+		return
+	}
+	fv.strEqDone[key] = true
+	fv.emit(fmt.Sprintf("(assert (= (= %s %s) (and (= (slen %s) (slen %s)) (forall ((i Int)) (! (=> (and (<= 0 i) (< i (slen %s))) (= (sat %s i) (sat %s i))) :pattern ((sat %s i)) :pattern ((sat %s i)))))))",
+		a, b, a, b, a, a, b, a, b))
 }
 
 func strContentEq(x, s string) string {
